@@ -235,24 +235,37 @@ def grow(ctx, rule='C16.grow'):
         (rz,) = ctx.need('resize-role')
     except AnchorError as e:
         return [unresolved(rule, str(e))]
-    T = commit.commit_trace(ctx)
-    sites = []
-    for n in T.nodes:
-        if n.virt is None and n.bb is not None:
-            t = n.fn.term(n.bb)
-            c = callee_of(t) if t['k'] == 'call' else None
-            if c and (c['path'] == rz.path or (c.get('resolved') or {}).get('path') == rz.path):
-                sites.append((n.fn, n.bb))
-    sites = sorted(set(sites), key=lambda x: (x[0].path, x[1]))
-    # judge the call inside the commit function with its private helpers folded in: the growth decision, the size arithmetic and the use of the result
-    # may be spread over helpers (grow_file(..), grow_to_fit(..))
+    # judged at the growth primitive itself (`file.allocate(n)` / `set_len(n)`), inside the commit function with ALL crate-private helpers folded in -- the resize role
+    # included: the growth decision, the size arithmetic, the primitive, the remap and the use of its result may be cut into helpers and methods in any way
+    # (`DBInner::ensure_capacity`, `grow`, `reserve`, `growth_target` ...)
+    from events import G_PATHS, MAP_PATHS
     cm = ctx.A.get('Tx::commit')
-    if cm is not None and sites:
-        X = ctx.x(cm)
-        xs = [(X, bb) for bb, t, c in calls_to_fn(F, X, rz)]
-        if xs:
-            sites = xs
-    f = floor(rule, 'calls of the resize role in the commit trace', len(sites), 1)
+    if cm is None:
+        return [unresolved(rule, 'Tx::commit')]
+    import inline
+    if not hasattr(ctx, '_grow_view'):
+        cg = F.callgraph()
+
+        def has_g(g):
+            return any(c and (c['path'] in G_PATHS or (c.get('resolved') or {}).get('path') in G_PATHS) for _, _, _, c in F.call_sites(g))
+        reach_g = {g for g in F.fns if any(has_g(h) for h in F.reachable_fns([g]))}
+        roles = {v for v in ctx.A.roles.values() if hasattr(v, 'blocks')} - {rz}
+        fold = {g for g in reach_g if not g.eff_pub and not g.trait and g.kind != 'Closure'} | {rz}
+        for _ in range(3):      # small private helpers of what is folded (pure arithmetic such as `growth_target(len, required)`, accessors such as `file()`)
+            more = {h for g in fold for h in cg.get(g, ()) if h not in fold and not h.eff_pub and not h.trait and h.kind != 'Closure' and h not in roles and len(h.blocks) <= 80}
+            if not more:
+                break
+            fold |= more
+        keep = {g for g in F.fns if g not in fold and g is not cm}
+        ctx._grow_view = inline.expand(F, cm, keep)
+    X = ctx._grow_view
+    sites = []
+    for bb in sorted(X.reachable_blocks()):
+        t = X.term(bb)
+        c = callee_of(t) if t['k'] == 'call' else None
+        if c and (c['path'] in G_PATHS or (c.get('resolved') or {}).get('path') in G_PATHS):
+            sites.append((X, bb))
+    f = floor(rule, 'file growth primitives in the commit function', len(sites), 1)
     if f:
         return [f]
     for fn, bb in sites:
@@ -260,6 +273,7 @@ def grow(ctx, rule='C16.grow'):
         t = fn.term(bb)
         # (a) the growth decision depends on the final high-water mark and on the current file length
         decided = False
+        decision_blocks = []
         for (a, s) in fn.control_deps_transitive(bb):
             at = fn.term(a)
             if at['k'] != 'switch':
@@ -271,6 +285,7 @@ def grow(ctx, rule='C16.grow'):
             tree = du.sym(at['discr'])
             if tree[0] in ('phi', '?') or _tree_has(tree, _is_len):
                 decided = True
+                decision_blocks.append(a)
                 # (b) ... and is taken after the header's num_pages was fixed
                 def _tx_num_pages(pl):
                     # the transaction's own header copy: `self.meta.num_pages`, also when reached through a `&mut Meta` handed to a helper
@@ -297,39 +312,75 @@ def grow(ctx, rule='C16.grow'):
                     res.append(bad(rule, '%s | required size computed before the final high-water mark' % fn.qual,
                                    'the growth decision at %s is not dominated by the store of the final num_pages: pages allocated later (e.g. the free-list page) would lie beyond the file'
                                    % fn.loc(a), where=fn.loc(a)))
+        if decided and decision_blocks:
+            # (f) nothing is written to the file before it has been sized: a write beyond the end extends the file by itself, the length test then finds nothing to
+            # do, and the map is never replaced
+            from events import W_PATHS, is_file_callee
+            for b3 in sorted(fn.reachable_blocks()):
+                t3 = fn.term(b3)
+                c3 = callee_of(t3) if t3['k'] == 'call' else None
+                if c3 and (c3['path'] in W_PATHS or (c3.get('resolved') or {}).get('path') in W_PATHS) and is_file_callee(c3):
+                    if not any(fn.dominates(a0, b3) for a0 in decision_blocks) and any(a0 in fn.reach_from([b3]) for a0 in decision_blocks):
+                        res.append(bad(rule, '%s | file written before it is sized' % fn.qual,
+                                       'the write at %s can run before the growth decision at %s: writing past the end of the file extends it, so the decision may find the file long '
+                                       'enough, skip the growth and leave the old, shorter map in place' % (fn.loc(b3), fn.loc(decision_blocks[0])), where=fn.loc(b3)))
         if not decided:
             res.append(bad(rule, '%s | growth not decided from required size and file length' % fn.qual,
-                           'the call of the resize role at %s is not controlled by a comparison of the current file length with num_pages * pagesize' % fn.loc(bb), where=fn.loc(bb)))
+                           'the file growth at %s is not controlled by a comparison of the current file length with num_pages * pagesize' % fn.loc(bb), where=fn.loc(bb)))
         # (c) the new size depends on the required size / current length
-        _, sa = du.slice_operand(t['args'][2]) if len(t['args']) > 2 else (None, set())
+        _, sa = du.slice_operand(t['args'][1]) if len(t['args']) > 1 else (None, set())
         if has_field(sa, 'Meta', 'num_pages') and any(x[0] == 'call' and x[2] == 'std::fs::Metadata::len' for x in sa):
             res.append(ok(rule, 'new file size at %s is computed from the required size and the current length' % fn.loc(bb), sites=1))
         else:
             res.append(bad(rule, '%s | new size independent of the required size' % fn.qual,
-                           'the size passed to the resize role at %s does not depend on both the required size (num_pages) and the current file length' % fn.loc(bb), where=fn.loc(bb)))
+                           'the size the file is grown to at %s does not depend on both the required size (num_pages) and the current file length' % fn.loc(bb), where=fn.loc(bb)))
         # (e) ... and is provably at least the required size (abstract evaluation of the size expression; see size_facts)
-        if len(t['args']) > 2:
-            e = du.sym(t['args'][2])
-            if 'GE_REQ' in size_facts(e):
+        if len(t['args']) > 1:
+            e = du.sym(t['args'][1])
+            looped = None
+            if 'GE_REQ' not in size_facts(e):
+                # growth in steps: the primitive is followed by a loop (it may be the loop's own body) that is left only when the file, or the map made from it, has
+                # reached the required size, and that grows again otherwise
+                gsites = {b for (_f, b) in sites}
+                for a in sorted(fn.reach_from(fn.succ(bb))):
+                    at = fn.term(a)
+                    if at['k'] != 'switch' or not (fn.reach_from([a]) & gsites):
+                        continue
+                    tr = du.sym(at['discr'])
+                    if tr[0] == 'bin' and tr[1] in ('Lt', 'Le', 'Gt', 'Ge') and _tree_has(tr, lambda x: x[0] == 'call' and last_seg(strip_generics(x[1])) == 'len') and \
+                            (_tree_has(tr, _is_req) or _tree_has(tr, lambda x: x[0] == 'field' and x[2] and x[2][-1] == 'num_pages')):
+                        looped = fn.loc(a)
+            if looped:
+                res.append(ok(rule, 'the file is grown step by step at %s until its length reaches num_pages * pagesize (loop test at %s)' % (fn.loc(bb), looped), sites=1))
+            elif 'GE_REQ' in size_facts(e):
                 res.append(ok(rule, 'new file size at %s is provably >= num_pages * pagesize (length + a rounded-up amount that covers the shortfall)' % fn.loc(bb), sites=1))
             else:
                 res.append(bad(rule, '%s | new size not provably at least the required size' % fn.qual,
-                               'the size passed to the resize role at %s cannot be shown to be >= num_pages * pagesize for every shortfall (expression: %s): when the file has to grow by more '
+                               'the size the file is grown to at %s cannot be shown to be >= num_pages * pagesize for every shortfall (expression: %s): when the file has to grow by more '
                                'than the rounding unit the map ends before pages the new header points to, and the next transaction reads beyond it'
                                % (fn.loc(bb), _fmt(e)), where=fn.loc(bb)))
-        # (d) the transaction's Pages are replaced from the result, behind the success edge
+        # (d) the transaction's Pages are replaced from a map made after the growth, behind its success edge
         rs = result_switch(fn, bb)
         st = stores_to_field(fn, 'TxInner', 'pages')
         if not st:
             res.append(bad(rule, '%s | transaction keeps the old map after growth' % fn.qual, 'after growing the file the transaction\'s Pages are not replaced: the strict check and later reads would index beyond the old map', where=fn.loc(bb)))
+        maps = [b3 for b3 in fn.reachable_blocks() if fn.term(b3)['k'] == 'call' and callee_of(fn.term(b3)) and
+                (strip_generics(callee_of(fn.term(b3))['path']) in MAP_PATHS or (strip_generics(callee_of(fn.term(b3))['path']).startswith('memmap2::') and last_seg(strip_generics(callee_of(fn.term(b3))['path'])).startswith('map')))
+                and b3 in fn.reach_from([bb])]
         for b2, si, s2 in st:
-            _, pa = du.slice_operand(s2['rv']['op']) if s2['rv']['k'] == 'use' else (None, set())
-            # never executed after a failed growth (the error arm cannot reach it), and data-dependent on the call: it can only be the success value
+            locs_p, pa = du.slice_operand(s2['rv']['op']) if s2['rv']['k'] == 'use' else (set(), set())
+            # never executed after a failed growth (the error arm cannot reach it), and data-dependent on a map created after the growth
             behind = rs and rs['ok'] is not None and rs.get('err') is not None and b2 not in fn.reach_from([rs['err']]) and b2 in fn.reach_from([rs['ok']])
-            if has_call(pa, rz.path) and behind:
+            from_map = any(x[0] == 'call' and x[1] in maps for x in pa)
+            if from_map and not behind and rs and rs['ok'] is not None and rs.get('err') is not None:
+                # the value stored exists only if the map was made, and the map is made only behind the success of the growth (`resize(..).map(Some)` hands a Result
+                # through a combinator, so the store itself is reachable from the error edge in the graph, but never with this value)
+                errs, oks = fn.reach_from([rs['err']]), fn.reach_from([rs['ok']])
+                behind = any(x[0] == 'call' and x[1] in maps and x[1] not in errs and x[1] in oks for x in pa) and b2 in oks
+            if from_map and behind:
                 res.append(ok(rule, 'transaction Pages replaced at %s from the new map, behind the success of the growth' % fn.loc(b2, si), sites=1))
             else:
-                res.append(bad(rule, '%s | Pages not replaced from the new map' % fn.qual, 'the store to TxInner.pages at %s is not derived from the successful result of the resize role' % fn.loc(b2, si), where=fn.loc(b2, si)))
+                res.append(bad(rule, '%s | Pages not replaced from the new map' % fn.qual, 'the store to TxInner.pages at %s is not derived from a map created after the successful growth' % fn.loc(b2, si), where=fn.loc(b2, si)))
     return res
 
 
